@@ -3,8 +3,11 @@
 Differential check Rust (RedeemNode::decode + cmr/amr/ihr/bounds().cost) vs the vendored C
 (decodeMallocDag, mallocTypeInference, fillWitnessData, verifyNoDuplicateIdentityHashes,
 computeAnnotatedMerkleRoot, analyseBounds -- called stage by stage, and once more through
-simplicity_sys::tests::run_program(.., TestUpTo::CheckOneOne)) vs, for the cost clause, the Coq
-reference Cdiff/CostRef.v evaluated on the typed node table of the decoded program."""
+simplicity_sys::tests::run_program(.., TestUpTo::CheckOneOne)) vs the Coq reference
+Cdiff/Reference.v (decode + structural pass + inference + witness fill + CMR/AMR/IHR over SHA-256 + cost,
+assembled from the Codec / Infer / Merkle / CostRef families) evaluated with vm_compute on a stated sample
+of the same byte pairs, and, for the cost clause, Cdiff/CostRef.v on the typed node table of every
+accepted program."""
 import os
 
 import proggen as pg
@@ -15,6 +18,20 @@ from props import cdiff_common as cc
 PROP = "C03"
 LEVEL = "other"
 IMPORTS = ["Cdiff.Run", "Ty.Ty", "Core.Prog"]
+REF_IMPORTS = ["Cdiff.Run3"]
+# primitives of Coq's Uint63 library that the SHA-256 instance (Merkle/Sha256.v) computes with; Print Assumptions
+# lists them for the theorems that mention the concrete roots (as for C09)
+UINT63_PRIMS = ["Uint63.int", "Uint63.add", "Uint63.sub", "Uint63.land", "Uint63.lor", "Uint63.lxor", "Uint63.lsl", "Uint63.lsr",
+                "Uint63.eqb", "PrimInt63.int", "PrimInt63.add", "PrimInt63.sub", "PrimInt63.land", "PrimInt63.lor",
+                "PrimInt63.lxor", "PrimInt63.lsl", "PrimInt63.lsr", "PrimInt63.eqb", "int", "add", "sub", "land", "lor", "lxor",
+                "lsl", "lsr", "eqb"]
+try:
+    # coqchk (thorough tier) lists every primitive and axiom of Coq.Numbers.Cyclic.Int63 in the closure of the checked library,
+    # used or not, under fully qualified names (list kept by the C09 check); Print Assumptions prints the short names above
+    from props.c09 import _INT63 as _C09_INT63
+    UINT63_PRIMS = UINT63_PRIMS + ["Coq.Numbers.Cyclic.Int63." + x for x in _C09_INT63.split()]
+except ImportError:  # pragma: no cover
+    pass
 CELLS_MAX = cc.LIMITS["CELLS_MAX"]
 
 STATS = {}
@@ -217,6 +234,156 @@ def nontrivial(c, r):
     return (p, w)
 
 
+
+# ------------------------------------------------------------------ three-way: Coq reference vs Rust vs C
+TWO32 = 2 ** 32
+
+
+def parse_ref(v):
+    """Cdiff/Run3.v run_ref -> dict"""
+    if v is None or not v:
+        return {"kind": "none"}
+    if v[0] == 0:
+        return {"kind": "accept", "fail": v[1], "cmr": v[2:34], "amr": v[34:66], "ihr": v[66:98], "rust_cost": v[98],
+                "c_cost": v[99], "ideal_cost": v[100], "core_cost": v[101], "entries": v[102]}
+    if v[0] == 1:
+        return {"kind": "reject", "cls": v[1]}
+    return {"kind": "internal", "code": v[1] if len(v) > 1 else -1}
+
+
+def ref_check(c, r):
+    """the property with the reference as third party: Rust and C are each compared with Cdiff/Reference.v"""
+    d = c.meta.get("parsed")
+    ref = c.meta.get("ref")
+    if d is None or ref is None:
+        return None
+    what = "program %s witness %s (%s)" % (cc.hexs(d["prog"]) if "prog" in d else c.meta.get("prog_hex"),
+                                           cc.hexs(d["wit"]) if "wit" in d else c.meta.get("wit_hex"), c.meta.get("origin", "generated"))
+    rc, ccl = d["r_class"], d["c_class"]
+    if ref["kind"] == "none":
+        bump("ref skipped (evaluation failed or too large)")
+        return None
+    if ref["kind"] == "internal":
+        return ("reference-internal", "the Coq reference reports an internal error (code %s) on %s" % (ref["code"], what))
+    bump("ref3 ref=%s rust=%s c=%s" % ("accept" if ref["kind"] == "accept" else cc.DECODE_CLASS.get(ref["cls"], ref["cls"]),
+                                        cc.DECODE_CLASS.get(rc, rc), cc.DECODE_CLASS.get(ccl, ccl)))
+    if ref["kind"] == "reject":
+        k = ref["cls"]
+        if k == 11:
+            bump("ref outside limits (witness wider than CELLS_MAX)")
+            if ccl == 0:
+                return ("ref-limit-c-accepts", "reference: witness wider than CELLS_MAX, C accepts: " + what)
+            return None
+        if rc == 0:
+            return ("ref-rejects-rust-accepts", "the reference rejects (%s), Rust accepts; C: %s: %s"
+                    % (cc.DECODE_CLASS.get(k), cc.DECODE_CLASS.get(ccl), what))
+        if ccl == 0:
+            return ("ref-rejects-c-accepts", "the reference rejects (%s), C accepts; Rust: %s: %s"
+                    % (cc.DECODE_CLASS.get(k), cc.DECODE_CLASS.get(rc), what))
+        if rc == 13:
+            return None   # reported by prop_check
+        bump("ref3 all three reject")
+        if k == rc:
+            bump("ref3 reject class equal to Rust's")
+        return None
+    # the reference accepts
+    if rc != 0:
+        return ("ref-accepts-rust-rejects", "the reference accepts, Rust rejects with class %s/%d; C: %s: %s"
+                % (cc.DECODE_CLASS.get(rc), d["r_detail"], cc.DECODE_CLASS.get(ccl), what))
+    for nm in ("cmr", "amr", "ihr"):
+        if d["r_" + nm] != ref[nm]:
+            cside = ("C agrees with the reference" if d.get("c_" + nm) == ref[nm] else
+                     "C agrees with Rust" if d.get("c_" + nm) == d["r_" + nm] else "C: " + cc.hexs(d.get("c_" + nm) or []))
+            return ("ref-" + nm, "%s differs: Rust %s, reference %s (%s) on %s"
+                    % (nm.upper(), cc.hexs(d["r_" + nm]), cc.hexs(ref[nm]), cside, what))
+    if ref["rust_cost"] >= TWO32:
+        return ("ref-cost-panic", "the Rust-shaped cost formula panics in the reference, Rust returned %d: %s" % (d["r_cost"], what))
+    if d["r_cost"] != ref["rust_cost"] or ref["core_cost"] != ref["rust_cost"]:
+        return ("ref-cost", "cost bound differs: Rust %d, reference (analysis.rs shape) %d, Core/Bounds.v %d: %s"
+                % (d["r_cost"], ref["rust_cost"], ref["core_cost"], what))
+    if bool(ref["fail"]) != (d["r_nfail"] > 0):
+        return ("ref-fail-flag", "fail nodes: reference %s, Rust counts %d: %s" % (ref["fail"], d["r_nfail"], what))
+    if ref["fail"]:
+        bump("ref3 accept with fail node (C: %s)" % cc.DECODE_CLASS.get(ccl))
+        if ccl == 0:
+            return ("fail-accepted-by-c", "program with a fail node accepted by C: " + what)
+        return None
+    if ccl == 11:
+        return None
+    if ccl != 0:
+        return ("ref-accepts-c-rejects", "the reference and Rust accept, C rejects with -%d (%s, stage %d): %s"
+                % (d["c_raw"], cc.DECODE_CLASS.get(ccl), d["c_stage"], what))
+    for nm in ("cmr", "amr", "ihr"):
+        if d["c_" + nm] != ref[nm]:
+            return ("ref-c-" + nm, "%s differs: C %s, reference %s on %s" % (nm.upper(), cc.hexs(d["c_" + nm]), cc.hexs(ref[nm]), what))
+    if d["c_cells"] <= CELLS_MAX and (d["c_cost"] != ref["c_cost"] or ref["ideal_cost"] != ref["c_cost"]):
+        return ("ref-c-cost", "cost bound differs: C %d, reference (eval.c shape) %d, ideal clipped %d: %s"
+                % (d["c_cost"], ref["c_cost"], ref["ideal_cost"], what))
+    bump("ref3 all three accept, roots and costs identical")
+    return None
+
+
+def ref_sample(cases, quick, rng):
+    """the byte pairs handed to the Coq reference: every case of the width family (one per width class and kind in the
+    quick tier), and a stratified sample of the other origins; returns (list, description of the sampling)"""
+    groups = {}
+    for c in cases:
+        d = c.meta.get("parsed")
+        if not d or "build_error" in d or d.get("r_class") == 13:
+            continue
+        pb = d["prog"] if "prog" in d else c.meta.get("prog")
+        wb = d["wit"] if "wit" in d else c.meta.get("wit")
+        if pb is None or len(pb) > 700 or len(wb) > 700:
+            continue
+        if d.get("r_class") == 0:
+            tsz = cc.table_size_from_nums(d["table"])
+            if tsz is None or tsz > 60000:
+                bump("ref skipped: types too large to expand")
+                continue
+        o = c.meta.get("origin", "generated-pruned" if c.meta.get("pruned") else "generated")
+        g = o.split("+")[0].split("&")[0]
+        if g.startswith("width-family"):
+            g = "width-family"
+        elif g.startswith("grammar:"):
+            g = "grammar"
+        elif g.startswith("table:"):
+            g = "table"
+        elif g not in ("generated", "generated-pruned", "random", "corpus"):
+            g = "bytes"
+        verdict = "acc" if (d.get("r_class") == 0 and d.get("c_class") == 0) else ("rej" if d.get("r_class") != 0 and d.get("c_class") != 0 else "mixed")
+        groups.setdefault((g, verdict), []).append((c, pb, wb))
+    caps = {"width-family": 60 if quick else 10000, "generated": 70 if quick else 1500, "generated-pruned": 50 if quick else 1200,
+            "bytes": 60 if quick else 1500, "table": 40 if quick else 1200, "grammar": 100 if quick else 2500,
+            "random": 40 if quick else 800, "corpus": 40 if quick else 1000}
+    out = []
+    desc = {}
+    for (g, verdict), lst in sorted(groups.items()):
+        cap = caps[g]
+        if verdict == "mixed":
+            cap = len(lst) if g != "grammar" else max(cap, 60)   # fail-node programs and every disagreement candidate
+        elif verdict == "rej":
+            cap = max(10, cap // 2)
+        if g == "width-family" and quick:
+            # one case per (kind, width)
+            seen = set()
+            sel = []
+            for x in lst:
+                key = x[0].meta.get("origin")
+                if key not in seen:
+                    seen.add(key)
+                    sel.append(x)
+            lst = sel
+            cap = len(lst)
+        if len(lst) > cap:
+            stride = len(lst) / float(cap)
+            lst = [lst[int(i * stride)] for i in range(cap)]
+        desc["%s/%s" % (g, verdict)] = len(lst)
+        # priority: the width family first, then the groups interleaved (any prefix of the list is a stratified sample)
+        for i, x in enumerate(lst):
+            out.append(((0 if g == "width-family" else 1, (i + 0.5) / len(lst), g, verdict), x))
+    out.sort(key=lambda kx: kx[0])
+    return [x for _k, x in out], desc
+
 # ------------------------------------------------------------------ run
 def bytes_case(cid, prog, wit, meta):
     m = {"prog": list(prog), "wit": list(wit), "prog_hex": cc.hexs(prog), "wit_hex": cc.hexs(wit)}
@@ -254,13 +421,11 @@ def cost_cases(cases):
             continue
         if d["c_cells"] > CELLS_MAX:
             continue
+        tsz = cc.table_size_from_nums(d["table"])
+        if tsz is None or tsz > 120000:
+            bump("cost_ref_skipped_type_too_large")
+            continue
         rows = cc.parse_table(d["table"])
-        if rows is None:
-            bump("cost_ref_skipped_type_too_large")
-            continue
-        if cc.table_type_size(rows) > 60000:
-            bump("cost_ref_skipped_type_too_large")
-            continue
         jl, tp = cc.table_coq(rows)
         out.append((Case(c.cid, "cost", c.line, "run_cost %s %s" % (jl, tp), {"of": c.cid}),
                     [0, d["r_cost"], d["c_cost"], d["c_cost"]]))
@@ -278,26 +443,48 @@ def run(rep, tier, rng):
         T[name] = round(time.time() - t0, 1)
         t0 = time.time()
     rep.coverage["explanation"] = (
-        "Level 'other': differential comparison, not a proof about the implementations.  Compared on every generated "
-        "input: accept/reject of RedeemNode::decode (Rust) vs the libsimplicity pipeline decodeMallocDag -> "
-        "closeBitstream -> mallocTypeInference -> 1->1 check -> fillWitnessData -> closeBitstream -> "
-        "verifyNoDuplicateIdentityHashes (C, staged, and again through simplicity_sys::tests::run_program up to "
-        "CheckOneOne), and, when both accept, CMR, AMR, IHR (bit-identical) and the static cost bound "
-        "(RedeemNode::bounds().cost vs analyseBounds).  Inputs C refuses for a documented libsimplicity limit "
-        "(witness wider than CELLS_MAX) and programs on which C reports FAIL_CODE are excluded from the verdict "
-        "comparison as the property says; costs are compared only when C's cell bound is within CELLS_MAX (beyond "
-        "it Rust's Cost::of_type truncates where C saturates: theorem C03_rust_c_differ_wide).  The Coq contribution "
-        "is an executable reference of the cost bound (Cdiff/CostRef.v: ideal, C-shaped and Rust-shaped formulas) with "
-        "theorems about that reference only (independence of witness values, monotonicity, saturation = clipping of "
-        "the ideal value, Rust-shaped = C-shaped below 2^32-bit widths); it is evaluated with vm_compute on the typed "
-        "node table of every accepted program and compared with both implementations (3-way).  No theorem mentions "
-        "the C code.  Roots are compared Rust vs C only (no Coq reference of SHA-256 in this family).  "
+        "Level 'other': no theorem mentions the Rust or the C code.  The universally quantified clause of the property is "
+        "proved about an executable REFERENCE, Cdiff/Reference.v, assembled from the reference components of the sibling "
+        "families: decode (Codec's dec_prog over the regenerated Elements jet code, the structural pass dec_struct, the "
+        "closing rule of the bit stream) -> infer (Infer's `infer` with program root 1 -> 1, jets typed by the regenerated "
+        "Elements table) -> witness fill (Ty.of_compact at the inferred target types, stream closed) -> roots (Merkle: CMR "
+        "of every node = cmr_spec of the committed structure, IMR/IHR/AMR by redeem_table over SHA-256, identity hashes "
+        "pairwise different) -> cost (Cdiff/CostRef.v ideal / eval.c-shaped / analysis.rs-shaped, and Core/Bounds.v as a "
+        "fourth opinion) -> verdict (accept with roots and costs | reject with a class).  Theorems (Props/C03.v 6-14): what "
+        "the reference accepts is the canonical encoding of a table in canonical order, is well typed with principal "
+        "arrows and root 1 -> 1, its witness stream is exactly the compact encodings of typed values, its CMR is the Merkle "
+        "spec of the erased structure, its cost is the ideal bound clipped at 2^32-1; it rejects only with the classes "
+        "1,2,3,4,6,7,8,9,10,11 (never for a fail node), class 8 exactly when no typing exists; the witness hash inside "
+        "AMR/IHR is SHA-256 with minimal FIPS padding for every bit length (the `> 56` threshold of compact_value is "
+        "exact).  Rust and C are EACH tied to the reference by comparison: every generated input goes through "
+        "RedeemNode::decode (Rust) and the libsimplicity pipeline decodeMallocDag -> closeBitstream -> "
+        "mallocTypeInference -> 1->1 check -> fillWitnessData -> closeBitstream -> verifyNoDuplicateIdentityHashes -> "
+        "computeAnnotatedMerkleRoot -> analyseBounds (C, staged, and again through simplicity_sys::tests::run_program up to "
+        "CheckOneOne) and is compared two-way (verdict, CMR, AMR, IHR bit-identical, cost); a stated sample of the same byte "
+        "pairs (coverage.three_way_reference) is evaluated in Coq with vm_compute and compared three-way.  Inputs C refuses "
+        "for a documented libsimplicity limit (witness wider than CELLS_MAX) and programs on which C reports FAIL_CODE are "
+        "excluded from the verdict comparison as the property says (the reference accepts fail programs and flags them; "
+        "Rust is still compared with it); costs are compared with C only when C's cell bound is within CELLS_MAX (beyond "
+        "it Rust's Cost::of_type truncates where C saturates: theorem C03_rust_c_differ_wide).  Input streams: generated "
+        "well-typed programs (unpruned and pruned), a systematic family with one witness of every width class around the "
+        "SHA-256 padding boundaries, byte-level mutations, node-table mutations, a grammar-based layer (valid encodings "
+        "disassembled, mutated on the node grammar and re-assembled by the python codec of codec_common.py; per-class "
+        "(Rust verdict, C verdict) counts in coverage.grammar_layer), random strings.  "
         + cc.CLASS_MAPPING_TEXT)
-    vplib.proof_stage(rep, "Props/C03.v", extra_targets=["Cdiff/Run.vo"], translators=())
+    vplib.proof_stage(rep, "Props/C03.v", extra_targets=["Cdiff/Run.vo", "Cdiff/Run3.vo"],
+                      translators=("xlate_consts.py", "xlate_jets.py", "xlate_ivs.py"), allowed_axioms=UINT63_PRIMS)
     rep.coverage["trusted_base"] = vplib.GENERIC_TRUSTED + [
         "vendored libsimplicity compiled by simplicity-sys's build.rs (the reference the property names) and its Rust FFI bindings (simplicity-sys/src/tests/ffi.rs)",
         "harness_cdiff: staged port of simplicity_sys::tests::run_program (cross-checked against run_program on every case)",
         "models Cdiff/CostRef.v, CostRustC.v, VerdictRef.v written by hand from analysis.rs, eval.c, errorCodes.h",
+        "Cdiff/Reference.v: hand-written composition of the models of the sibling families (Codec/NodeCodec.v, Decode.v, "
+        "RealJets.v, WitnessCodec.v; Infer/*.v; Merkle/Sha256.v, Tagged.v, Cmr.v, Ihr.v, Real.v; Ty/Ty.v), each tied to the "
+        "Rust code by its own family's correspondence check (C01/C02, C04, C09)",
+        "translators tools/xlate_jets.py (Elements jet codes, type names, costs), tools/xlate_ivs.py (IV constants, jet CMRs), "
+        "tools/xlate_consts.py, regenerated from the tree under test on every run",
+        "executable SHA-256 Merkle/Sha256.v on Coq's Uint63 primitives: Print Assumptions of the theorems that mention the "
+        "reference lists PrimInt63.{int,add,sub,land,lor,lxor,lsl,lsr,eqb} (primitive operations, no logical axiom)",
+        "python disassembler / assembler of tools/props/codec_common.py (grammar layer; checked to reproduce every encoding it mutates)",
     ]
     lap("proof_stage_s")
     lim, lerr = cc.read_limits()
@@ -321,6 +508,11 @@ def run(rep, tier, rng):
         if feats["fail"] == 0:
             cases.append(Case("q%d" % k, "pdl", "1 " + pdl, None, {"features": feats, "pruned": 1}))
         k += 1
+    # systematic family: one witness of every width class (SHA-256 padding boundaries of compact_value and others)
+    fam = cc.width_family(rng.fork("widths"), per_width=2 if quick else 6)
+    for j, (p, w, desc) in enumerate(fam):
+        cases.append(Case("w%d" % j, "pdl", "0 " + pg.prog_pdl(p), None,
+                          {"features": cc.prog_features(p), "pruned": 0, "origin": "width-family:" + desc, "wit_width": w}))
     impl = vplib.run_harness(binary, "c03", ["%s %s %s" % (c.cid, c.kind, c.line) for c in cases], workdir=wd, timeout=600)
     pf1, _ = vplib.decide(rep, cases, impl, {}, prop_check, finding_match, nontrivial, what="Rust vs libsimplicity on generated programs")
 
@@ -370,18 +562,103 @@ def run(rep, tier, rng):
                 how += "&" + how2
             pb, wb = cc.encode_table(q, codes)
             cases2.append(bytes_case("t%d_%d" % (i, j), pb, wb, {"origin": "table:" + how}))
+    # grammar-based layer: the valid encodings disassembled by the python decoder of codec_common.py, mutated at the
+    # level of the node grammar and re-assembled by its bit assembler
+    from props import codec_common as kc
+    jt = cc.codec_jt(binary, wd)
+    by_arrow = {}
+    for j in cc.all_jets(binary, wd):
+        by_arrow.setdefault((j[2], j[3]), []).append(j[0])
+    same_arrow = {}
+    for lst in by_arrow.values():
+        for a in lst:
+            same_arrow[a] = [b for b in lst if b != a]
+    r4 = rng.fork("grammar")
+    gsel = [v for v in valid if len(v[0]) <= 300]
+    gcap = 330 if quick else 5000
+    if len(gsel) > gcap:
+        stride = len(gsel) / float(gcap)
+        gsel = [gsel[int(i * stride)] for i in range(gcap)]
+    cm = vplib.run_harness(binary, "c03", ["g%d nodecmrs %s %s" % (i, cc.hexs(p), cc.hexs(w)) for i, (p, w) in enumerate(gsel)], workdir=wd)
+    gram_stats = {"sources": len(gsel), "python_decoder_disagrees": 0}
+    for i, (p, w) in enumerate(gsel):
+        dec = kc.dec_prog(kc.bits_of_bytes(p), jt)
+        if dec[0] != "ok":
+            gram_stats["python_decoder_disagrees"] += 1
+            continue
+        dnodes = dec[1]
+        cmrs = None
+        x = cm.get("g%d" % i)
+        if isinstance(x, list) and x and x[0] == 0:
+            flat = x[2:]
+            per = [flat[32 * k:32 * k + 32] for k in range(x[1])]
+            it = iter(per)
+            cmrs = {}
+            try:
+                for k, dn_ in enumerate(dnodes):
+                    cmrs[k] = list(dn_[1]) if dn_[0] == "hid" else next(it)
+            except StopIteration:
+                cmrs = None
+        if kc.pack(kc.enc_prog(dnodes, jt)) != list(p):
+            gram_stats["python_decoder_disagrees"] += 1
+            continue
+        for j, (cls, mp, mw) in enumerate(cc.grammar_mutations(r4, dnodes, w, jt, node_cmrs=cmrs, jets_by_arrow=same_arrow,
+                                                                 count=3 if quick else 8)):
+            cases2.append(bytes_case("y%d_%d" % (i, j), mp, mw, {"origin": "grammar:" + cls}))
+    if gram_stats["python_decoder_disagrees"]:
+        rep.violation("the python disassembler/assembler of codec_common.py does not reproduce %d encodings produced by the Rust library"
+                      % gram_stats["python_decoder_disagrees"], {"grammar": gram_stats}, False)
     for i, (p, w) in enumerate(random_strings(r2, 600 if quick else 20000)):
         cases2.append(bytes_case("r%d" % i, p, w, {"origin": "random"}))
     impl2 = vplib.run_harness(binary, "c03", ["%s %s %s" % (c.cid, c.kind, c.line) for c in cases2], workdir=wd, timeout=600)
     pf2, _ = vplib.decide(rep, cases2, impl2, {}, prop_check, finding_match, nontrivial, what="Rust vs libsimplicity on mutated and random byte strings")
+    gmatrix = {}
     for c in cases2:
-        bump("origin " + c.meta.get("origin", "?").split("+")[0].split("&")[0])
+        o = c.meta.get("origin", "?").split("+")[0].split("&")[0]
+        bump("origin " + o)
+        d = c.meta.get("parsed")
+        if o.startswith("grammar:") and d:
+            key = "rust=%s c=%s" % (cc.DECODE_CLASS.get(d["r_class"], d["r_class"]), cc.DECODE_CLASS.get(d["c_class"], d["c_class"]))
+            m = gmatrix.setdefault(o[8:], {})
+            m[key] = m.get(key, 0) + 1
+    rep.coverage["grammar_layer"] = {
+        "what": "valid encodings disassembled by tools/props/codec_common.py (python), mutated on the node grammar, re-assembled "
+                "by its bit assembler; per class the counts of (Rust verdict, C verdict) pairs",
+        "classes": cc.GRAMMAR_CLASSES, "sources": gram_stats, "verdict_pairs_per_class": {k: dict(sorted(v.items())) for k, v in sorted(gmatrix.items())}}
 
+    # witness widths actually hashed by both sides (accepted by Rust and C): residues mod 512 and the stated classes
+    wl_seen = set()
+    wl_mod = {}
+    for c in cases + cases2:
+        d = c.meta.get("parsed")
+        if d and d.get("r_class") == 0 and d.get("c_class") == 0:
+            tn = d["table"]
+            if tn and tn[0] == 0:
+                pos = 2
+                for _ in range(tn[1]):
+                    code, extra, marker = tn[pos], tn[pos + 3], tn[pos + 4]
+                    pos += 5
+                    if marker != 5:
+                        _a, pos = cc._nums_ty_size(tn, pos)
+                        _b, pos = cc._nums_ty_size(tn, pos)
+                    if code == 14:
+                        wl_seen.add(extra)
+                        wl_mod[extra % 512] = wl_mod.get(extra % 512, 0) + 1
+    missing = [w for w in cc.WIDTH_CLASSES if w not in wl_seen]
+    rep.coverage["witness_widths"] = {
+        "classes_required": cc.WIDTH_CLASSES, "classes_missing": missing, "distinct_compact_lengths_seen": len(wl_seen),
+        "witnesses_with_length_mod_512_in_440_447": sum(v for k, v in wl_mod.items() if 440 <= k <= 447),
+        "witnesses_with_length_mod_512_in_448_511": sum(v for k, v in wl_mod.items() if 448 <= k <= 511),
+        "witnesses_with_length_mod_512_in_0_7": sum(v for k, v in wl_mod.items() if k <= 7),
+        "max_compact_length": max(wl_seen) if wl_seen else 0}
+    if missing:
+        rep.violation("generator coverage: no accepted program carried a witness of compact length %s (width family broken?)" % missing[:8],
+                      {"missing_width_classes": missing}, False)
     lap("mutated_strings_s")
     # phase 3: the cost clause three ways (Coq reference vs Rust vs C) and the class tables
     cc_cases = cost_cases(cases + cases2)
     # spread the selection over all phases (generated, pruned, mutated)
-    cap = 320 if quick else 6000
+    cap = 240 if quick else 6000
     if len(cc_cases) > cap:
         stride = len(cc_cases) / float(cap)
         cc_cases = [cc_cases[int(i * stride)] for i in range(cap)]
@@ -406,6 +683,54 @@ def run(rep, tier, rng):
     rep.coverage["correspondence"]["cases_impl"] = ci0
     rep.coverage["cost_three_way_cases"] = len(cc_cases)
     lap("cost_reference_s")
+    # phase 4: the whole property three ways: Cdiff/Reference.v (decode, structure, inference, witnesses, CMR/AMR/IHR, cost)
+    # evaluated on a sample of the byte pairs of phases 1 and 2
+    sample, sdesc = ref_sample(cases + cases2, quick, rng.fork("refsample"))
+    exprs = ["run_ref %s %s" % (vplib.coq_list(pb), vplib.coq_list(wb)) for (_c, pb, wb) in sample]
+    vals, nfail_batches = cc.ref_eval(REF_IMPORTS, exprs, wd, "c03ref", batch=10 if quick else 24, budget_s=70 if quick else 540)
+    not_evaluated = len([v for v in vals if v is None])
+    rcases = []
+    for (c, pb, wb), v in zip(sample, vals):
+        if v is None:
+            continue
+        c.meta["ref"] = parse_ref(v)
+        rcases.append(c)
+    ev0 = rep.coverage.get("evaluations", 0)
+    dn0 = rep.coverage.get("distinct_nontrivial", 0)
+    ci0 = rep.coverage["correspondence"]["cases_impl"]
+    hist0 = dict(rep.coverage["correspondence"]["kind_histogram"])
+    nviol = len(rep.violations)
+    allimpl = dict(impl)
+    allimpl.update(impl2)
+    pf3, _ = vplib.decide(rep, rcases, allimpl, {}, ref_check, finding_match, None,
+                          what="Coq reference Cdiff/Reference.v vs Rust vs libsimplicity (three-way)")
+    if (pf1 or pf2) and len(rep.violations) > nviol:
+        # the two-way comparison already reported a concrete input for (very likely) the same cause; keep the
+        # three-way diagnosis (which side deviates from the reference) as a note
+        rep.notes.append("three-way: " + rep.violations[-1][2])
+        del rep.violations[nviol:]
+    rep.coverage["evaluations"] = ev0
+    rep.coverage["distinct_nontrivial"] = dn0
+    rep.coverage["correspondence"]["cases_impl"] = ci0
+    rep.coverage["correspondence"]["kind_histogram"] = hist0
+    rep.coverage["correspondence"]["cases_model"] += len([v for v in vals if v is not None])
+    rep.coverage["three_way_reference"] = {
+        "cases_evaluated_in_coq": len([v for v in vals if v is not None]), "cases_selected": len(sample),
+        "batches_retried_case_by_case": nfail_batches,
+        "selected_but_not_evaluated": not_evaluated,
+        "time_budget": "the selection is evaluated in priority order (width family first, then the groups interleaved) in slices of "
+                       "16 coqc processes; no new slice is started after %d s, so that the quick tier stays within its time on a "
+                       "loaded machine; cases left over are counted in selected_but_not_evaluated" % (70 if quick else 540),
+        "sampling": "of the byte pairs of phases 1 and 2 (every pair goes through Rust and C): per (origin, verdict) group an evenly "
+                    "spaced selection with the caps below; groups where Rust and C differ by design (fail nodes) are taken whole; "
+                    "the width family contributes one case per (shape, width class) in the quick tier and all cases in the thorough "
+                    "tier; pairs longer than 700 bytes and accepted programs whose types have more than 60000 tree nodes in total "
+                    "are not handed to Coq",
+        "selected_per_group": sdesc,
+        "compared": "accept/reject verdict (Coq vs Rust, Coq vs C, fail nodes and CELLS_MAX as the property says), CMR, AMR, IHR "
+                    "(bit-identical, three ways), cost bound (Rust vs analysis.rs-shaped formula vs Core/Bounds.v; C vs eval.c-shaped "
+                    "formula vs ideal value clipped at 2^32-1)"}
+    lap("three_way_reference_s")
     rep.coverage["timing"] = T
 
     import re
@@ -427,8 +752,12 @@ def run(rep, tier, rng):
     rep.coverage["rule"] = (
         "inputs: (i) encodings (program bytes, witness bytes) of generated well-typed 1->1 Elements programs (jets of I/O "
         "width <= 600 bits as leaves, witnesses filled at the inferred types, hidden branches/assertions, disconnect, words, "
-        "DAG sharing), each unpruned and pruned with the dummy environment; (ii) mutations of those encodings (bit flips, "
-        "truncation, extension, splice, padding bits, foreign witness) and random strings with plausible structure.  "
+        "DAG sharing), each unpruned and pruned with the dummy environment; (i') the width family: for every compact witness "
+        "length in cdiff_common.WIDTH_CLASSES (0,1,7,8,9,63,64,65,255,256,257, 440..448, 504..513, 952..960, 1016,1017,1023,"
+        "1024,1025) a program whose single witness has a product-of-words type of exactly that width (all-zero/all-one and "
+        "random values) and one of type (words of width-1)+1 holding a left value; (ii) mutations of those encodings (bit flips, "
+        "truncation, extension, splice, padding bits, foreign witness), node-table mutations, grammar-level mutations through "
+        "the python codec, and random strings with plausible structure.  "
         "distinct = distinct (program bytes, witness bytes) pair; non-trivial = program of at least 2 bytes that the harness "
         "could process")
     alls = cases + cases2
@@ -439,12 +768,16 @@ def run(rep, tier, rng):
          "c_raw_err": (c.meta.get("parsed") or {}).get("c_raw"), "rust_cost": (c.meta.get("parsed") or {}).get("r_cost"),
          "c_cost": (c.meta.get("parsed") or {}).get("c_cost")}
         for c in alls[::step][:6]]
-    vplib.finish_proof_verdict(rep, pf1 or pf2)
+    vplib.finish_proof_verdict(rep, pf1 or pf2 or pf3)
     rep.assumptions += [
         "FAIL_CODE verdicts of C are excluded from the accept/reject comparison (the property's designed exception); hits: %d" % STATS.get("fail_node_excluded", 0),
         "inputs refused by C for a resource limit (EXEC_MEMORY in fillWitnessData, MALLOC) are outside the property; hits: %d" % STATS.get("outside_limits_c_resource", 0),
         "cost bounds are compared only when C's cell bound <= CELLS_MAX; accepted beyond: %d, of which with different cost: %d"
         % (STATS.get("accepted_beyond_CELLS_MAX", 0), STATS.get("cost_differs_beyond_CELLS_MAX", 0)),
+        "three-way part: the Coq reference is evaluated on a sample (%d of %d byte pairs this run; selection rule in "
+        "coverage.three_way_reference.sampling); the other pairs are compared Rust vs C only"
+        % (rep.coverage["three_way_reference"]["cases_evaluated_in_coq"], len(cases) + len(cases2)),
+        "reject CLASSES are tallied, not required to agree: the property is about accept/reject (statistics 'ref3 ...')",
     ]
 
 
@@ -469,6 +802,14 @@ def replay(obj):
         for nm in ("cmr", "amr", "ihr"):
             print("%s rust / C  : %s / %s" % (nm, cc.hexs(d.get("r_" + nm) or []), cc.hexs(d.get("c_" + nm) or [])))
         print("property      :", chk)
+        pb = d["prog"] if "prog" in d else vplib_unhex(case.line.split()[0])
+        wb = d["wit"] if "wit" in d else vplib_unhex(case.line.split()[1])
+        if pb is not None and len(pb) <= 2000:
+            vals, _n = cc.ref_eval(REF_IMPORTS, ["run_ref %s %s" % (vplib.coq_list(pb), vplib.coq_list(wb))], wd, "c03replay", batch=1)
+            ref = parse_ref(vals[0])
+            print("reference     :", {k: (cc.hexs(v) if isinstance(v, list) else v) for k, v in ref.items()})
+            case.meta["ref"] = ref
+            print("three-way     :", ref_check(case, r))
     else:
         print("model-only case:", case.kind, case.line[:500])
     return 0
